@@ -51,6 +51,8 @@ def eval_expr(s: str):
 def expr(v) -> str:
     """A Python expression that eval_expr() turns back into an equal value of the same types."""
     ty = type(v)
+    if ty is int and (v > 10 ** 4000 or v < -10 ** 4000):
+        return hex(v)        # repr() of such an int exceeds sys.get_int_max_str_digits(); hex() has no limit
     if v is None or ty in (bool, int, str, bytes):
         return repr(v)
     if ty is float:
@@ -141,7 +143,9 @@ def ckey(v):
     import enum
     if isinstance(v, enum.Enum):
         return ('enum', ty.__name__, v.name)
-    if isinstance(v, (fractions.Fraction, datetime.date, datetime.time, pathlib.PurePath)):
+    if isinstance(v, fractions.Fraction):
+        return (ty.__name__, v.numerator, v.denominator)
+    if isinstance(v, (datetime.date, datetime.time, pathlib.PurePath)):
         return (ty.__name__, repr(v))
     if isinstance(v, (int, float, str)):  # subclasses
         return (ty.__name__, ckey(ty.__mro__[1](v)))
